@@ -241,9 +241,10 @@ Section Source.
     mk_st_ops unit P (fun _ p => vo_len o p)
               (fun st p n => (st, vo_split o p n)) (fun st p => (st, vo_clone o p)).
 
-  (* every state the adapter can be in answers with the payload's own rows *)
-  Definition st_lawful {St P} (o : st_ops St P) (rows : P -> list V) : Prop :=
-    forall st p,
+  (* in every state the adapter can be in, it answers with the payload's own rows (for the
+     payloads `ok` it is meant for, e.g. shards built by build_jsonl_shards) *)
+  Definition st_lawful {St P} (o : st_ops St P) (ok : P -> Prop) (rows : P -> list V) : Prop :=
+    forall st p, ok p ->
       snd (so_clone o st p) = Some (rows p) /\
       forall n ps, snd (so_split o st p n) = Some ps -> concat ps = rows p.
 
@@ -331,7 +332,7 @@ Arguments so_clone {V St P} _ _ _.
 Arguments st_read {V St P} o st p m.
 Arguments st_reads {V St P} o st l.
 Arguments pure_st {V P} o.
-Arguments st_lawful {V St P} o rows.
+Arguments st_lawful {V St P} o ok rows.
 Arguments memo_get {V} k m.
 Arguments memo_rows {V} m s r.
 Arguments memo_split {V} m s rs.
